@@ -205,18 +205,25 @@ PROPS = {
     },
     "C14": {
         "builds": ["ark"], "level": "fault_enumeration", "design_ref": "DESIGN.md §3 C14, §4",
-        "technique": "fault-injecting runtime monitor: a cfg-guarded thread-local hook substitutes the prover's (was_square, y) hint at "
-                     "every isqrt call with every value able to satisfy a case equation; an unchecked constructor supplies off-curve / "
-                     "out-of-group witness coordinates; oracle = satisfied => native accepts and outputs agree",
+        "technique": "fault-injecting runtime monitors: (a) a cfg-guarded thread-local hook substitutes the prover's (was_square, y) hint at "
+                     "every isqrt call with every value able to satisfy a case equation; (b) an unchecked constructor supplies off-curve / "
+                     "out-of-group witness coordinates; (c) tamper-and-propagate over the R1CS of an honest synthesis: witnesses are split into "
+                     "inputs / derived / hints by constraint propagation, every hint (and every run of bit hints, shifted by +-p) is replaced "
+                     "by discrete alternatives, derived witnesses are recomputed, satisfaction is confirmed by ConstraintSystem::is_satisfied; "
+                     "oracle = satisfied => native accepts and pinned outputs agree",
         "rule": "for every isqrt-using gadget and input of C13's zoo and every isqrt call index: single substitution of (flag, y) with "
                 "flag in {true,false} and y in {0, +-1, +-sqrt(1/den), +-sqrt(zeta/den), +-honest, zeta*honest, random} (complete over "
                 "satisfying hints for the explored inputs); thorough: all pairs for gadgets with 2-3 calls; witnessed coordinates "
-                "(0,0), (0,-1), 4-torsion points, P+T4 outside 2E, other coset member, random off-curve pairs, inconsistent T. "
-                "A case = (gadget, input, call index, hint)." + DISTINCT,
+                "(0,0), (0,-1), 4-torsion points, P+T4 outside 2E, other coset member, random off-curve pairs, inconsistent T; "
+                "tamper engine: for every catalogue gadget (scalar_mul_le in thorough) and input, every non-derivable witness: boolean "
+                "flip, runs of >= 200 bit hints replaced by the bits of v+p and v-p and single flips, field hints replaced by -v, 0, 1, "
+                "v+1, zeta*v, random (about 30k tampered assignments in quick). A case = (gadget, input, call index or hint, alternative)." + DISTINCT,
         "text": "Fault enumeration of malicious prover hints at the two hooked sites. Known finding (not repaired, see known_findings.json): "
                 "isqrt accepts (true, +-1) when den = 0.",
-        "note": "complete only over hints at the hooked sites and the explored inputs; hints inside ark-r1cs-std (bit decompositions, "
-                "inverses) are not adversarially controlled.",
+        "note": "(a) is complete over satisfying isqrt hints for the explored inputs; (c) explores single-hint discrete alternatives (and "
+                "whole bit-run shifts) of every other prover-chosen witness incl. those inside ark-r1cs-std; simultaneous changes of several "
+                "independent hints are only explored for isqrt pairs (thorough).",
+        "timeout": {"quick": 1500, "thorough": 14400},
     },
     "C15": {
         "builds": ["ark"], "level": "exploration", "design_ref": "DESIGN.md §3 C15",
